@@ -34,7 +34,8 @@ static State* new_state() {
 static const char* kOuts[] = { "o1", "out", "out4", "dead" };
 static const char* kDeps[] = { "a", "b2", "hh.hx", "s" };
 struct Rec { int out; long mtime; int deps_mask; };            // one RecordDeps operation
-static std::vector<Node*> dep_nodes(State* st, int mask) { std::vector<Node*> v; for (int i = 0; i < 4; i++) if (mask & (1 << i)) v.push_back(st->GetNode(kDeps[i], 0)); return v; }
+// bit 16 of a mask: the first dependency is listed a second time at the end (a depfile naming one file under two spellings that canonicalise to the same node)
+static std::vector<Node*> dep_nodes(State* st, int mask) { std::vector<Node*> v; for (int i = 0; i < 4; i++) if (mask & (1 << i)) v.push_back(st->GetNode(kDeps[i], 0)); if ((mask & 16) && !v.empty()) v.push_back(v[0]); return v; }
 static Rec sym_rec(const char* tag) {
   Rec r; r.out = verif_choice("out", 4); r.mtime = verif_nondet("mtime", 1, 3); r.deps_mask = (int)verif_nondet("deps_mask", 0, 15);
 #ifdef SMALL_MENU
@@ -83,7 +84,9 @@ extern "C" int harness_main() {
                                    { {2, 1, 0}, {1, 2, 4 | 8}, {2, 2, 2}, {1, 2, 4 | 8} },
                                    { {3, 1, 15}, {0, 2, 1}, {1, 1, 1}, {2, 3, 1 | 2} },
                                    // the same output recorded again with the same dependencies and an OLDER mtime (the output was restored from a cache), then once more unchanged
-                                   { {1, 5, 1 | 2}, {1, 3, 1 | 2}, {2, 0, 4}, {1, 3, 1 | 2} } };      // (and a record with mtime 0: a command that succeeded without creating its output)
+                                   { {1, 5, 1 | 2}, {1, 3, 1 | 2}, {2, 0, 4}, {1, 3, 1 | 2} },
+                                   // dependency lists that name the same (so far unknown) file twice
+                                   { {0, 1, 1 | 16}, {1, 2, 4 | 8 | 16}, {2, 1, 2}, {1, 3, 8 | 16} } };      // (and a record with mtime 0: a command that succeeded without creating its output)
 #ifndef SEQ_BASE
 #define SEQ_BASE 0
 #endif
